@@ -481,6 +481,9 @@ func (x *Exec) frameObligations(final, entry *State, c *Contract) {
 			if t := x.prog.resolveType(c.PkgPath, m[5:len(m)-1]); t != nil {
 				covered[heapKey(x.vc.sortOf(t))] = true
 			}
+		case strings.HasPrefix(m, "*"):
+			// *param: any heap may be the pointee; frames are not generated for extern/interface contracts anyway
+			all = true
 		default:
 			covered["G:"+m] = true
 			if strings.Contains(m, ".") {
@@ -518,6 +521,15 @@ func (x *Exec) frameObligations(final, entry *State, c *Contract) {
 		}
 		if fv.T == iv.T {
 			continue // syntactically untouched
+		}
+		if strings.HasPrefix(k, "H:") {
+			// objects of an unexported struct type of another package cannot be observed by this
+			// function's callers: no frame obligation (the owning package states its own frames)
+			if inf := x.vc.info(strings.TrimPrefix(k, "H:")); inf != nil && inf.GoT != nil {
+				if n, ok := inf.GoT.(*types.Named); ok && !n.Obj().Exported() && n.Obj().Pkg() != nil && n.Obj().Pkg().Path() != c.PkgPath {
+					continue
+				}
+			}
 		}
 		var goal string
 		if strings.HasPrefix(k, "H:") {
